@@ -516,7 +516,7 @@ fn run_scenario(sc: &Scenario) -> Outcome {
     Outcome { completed, stuck: stuck.join(", "), panics, leftover_threads: leftover }
 }
 
-/// the scenario as a Coq term for c08_check (see model/Locks.v part 4)
+/// the scenario as a Coq term for c08_check_p (see model/Locks.v part 6)
 fn scenario_coq(sc: &Scenario, seed: u64, completed: bool) -> String {
     let nu = sc.threads.len() + 1; // model thread 0 = the main thread
     let m_of = |_b: usize| 0usize;
@@ -716,11 +716,9 @@ fn lifecycle(s: &mut Session, ev: Ev, interval_ms: u64, target: Target) {
     }
     s.count(&format!("life:{}", ev_coq(ev)));
     s.count(&format!("interval_ms:{interval_ms}"));
-    s.case(
-        format!("CLife {} {}%N {}%N {}", ev_coq(ev), interval_ms, WINDOW_MS, cbool(exited)),
-        desc,
-        true,
-    );
+    // oracle only: the automaton's prediction for these four events does not depend on the interval
+    // (`life_exits` = true), a Coq case would carry no information (audit 3, finding 28)
+    s.oracle_only(desc, true);
     // clean up (joins what is left; prompt by the clauses just checked)
     let _ = watchdog(move || {
         drop(keep);
@@ -862,6 +860,277 @@ fn d9_stress(s: &mut Session, rounds: u64, interval_ms: u64) {
     s.oracle_only(desc, true);
 }
 
+// ------------------------------------------------------------------ terminals with a fault / a gate
+use indicatif::TermLike;
+use std::io;
+use std::sync::atomic::{AtomicBool, AtomicUsize, Ordering};
+use std::sync::{Arc, Condvar, Mutex};
+
+#[derive(Clone, Copy, Debug, PartialEq)]
+enum FailAt {
+    /// the k-th flush (= the k-th frame) fails
+    Flush(usize),
+    /// the k-th terminal call of any kind fails
+    Call(usize),
+}
+
+#[derive(Debug, Default)]
+struct FlakyShared {
+    calls: AtomicUsize,
+    flushes: AtomicUsize,
+    failed: AtomicBool,
+    frames_after_failure: AtomicUsize,
+}
+
+/// a terminal that answers ONE call with a transient error (`WouldBlock`) and works before and after
+#[derive(Debug, Clone)]
+struct FlakyTerm(Arc<FlakyShared>, FailAt);
+
+impl FlakyTerm {
+    fn call(&self, is_flush: bool) -> io::Result<()> {
+        let n = self.0.calls.fetch_add(1, Ordering::SeqCst) + 1;
+        let f = if is_flush { self.0.flushes.fetch_add(1, Ordering::SeqCst) + 1 } else { 0 };
+        let fail = match self.1 {
+            FailAt::Flush(k) => is_flush && f == k,
+            FailAt::Call(k) => n == k,
+        };
+        if fail && !self.0.failed.swap(true, Ordering::SeqCst) {
+            return Err(io::Error::new(io::ErrorKind::WouldBlock, "try again"));
+        }
+        if is_flush && self.0.failed.load(Ordering::SeqCst) {
+            self.0.frames_after_failure.fetch_add(1, Ordering::SeqCst);
+        }
+        Ok(())
+    }
+}
+
+impl TermLike for FlakyTerm {
+    fn width(&self) -> u16 {
+        40
+    }
+    fn height(&self) -> u16 {
+        10
+    }
+    fn move_cursor_up(&self, _n: usize) -> io::Result<()> {
+        self.call(false)
+    }
+    fn move_cursor_down(&self, _n: usize) -> io::Result<()> {
+        self.call(false)
+    }
+    fn move_cursor_right(&self, _n: usize) -> io::Result<()> {
+        self.call(false)
+    }
+    fn move_cursor_left(&self, _n: usize) -> io::Result<()> {
+        self.call(false)
+    }
+    fn write_line(&self, _s: &str) -> io::Result<()> {
+        self.call(false)
+    }
+    fn write_str(&self, _s: &str) -> io::Result<()> {
+        self.call(false)
+    }
+    fn clear_line(&self) -> io::Result<()> {
+        self.call(false)
+    }
+    fn flush(&self) -> io::Result<()> {
+        self.call(true)
+    }
+}
+
+/// "A steady-tick thread redraws the bar ... and stops when the bar is finished, steady tick is disabled or
+/// replaced, or the last handle is dropped": a transient I/O error of one frame is none of these - frames must
+/// keep coming.  Only the ticker thread draws (the main thread never touches the bar).
+fn flaky_story(s: &mut Session, fail: FailAt, interval_ms: u64, multi: bool) {
+    let desc = format!("flaky_terminal fail={fail:?} interval_ms={interval_ms} multi={multi}");
+    let shared = Arc::new(FlakyShared::default());
+    let term = FlakyTerm(shared.clone(), fail);
+    let mp = multi.then(|| MultiProgress::with_draw_target(ProgressDrawTarget::term_like(Box::new(term.clone()))));
+    let pb = match &mp {
+        Some(m) => m.add(ProgressBar::with_draw_target(None, ProgressDrawTarget::hidden())),
+        None => ProgressBar::with_draw_target(None, ProgressDrawTarget::term_like(Box::new(term.clone()))),
+    };
+    pb.set_style(ProgressStyle::with_template("{spinner} {msg}").unwrap());
+    pb.enable_steady_tick(Duration::from_millis(interval_ms));
+    if !wait_until(5000, || shared.failed.load(Ordering::SeqCst)) {
+        s.fail(
+            "ticker-does-not-redraw",
+            format!("the steady tick never reached the failing call ({} calls, {} frames in 5 s)",
+                    shared.calls.load(Ordering::SeqCst), shared.flushes.load(Ordering::SeqCst)),
+            desc.clone(),
+        );
+    } else {
+        let ok = wait_until(3000, || shared.frames_after_failure.load(Ordering::SeqCst) >= 5);
+        if !ok {
+            s.fail(
+                "ticker-stops-after-io-error",
+                format!(
+                    "only {} frame(s) in 3 s after ONE transient WouldBlock of the terminal; the bar is not finished, \
+                     steady tick not disabled or replaced, the handle alive (manual ticks are no-ops while it is installed)",
+                    shared.frames_after_failure.load(Ordering::SeqCst)
+                ),
+                desc.clone(),
+            );
+        }
+    }
+    s.count("story:flaky_terminal");
+    s.oracle_only(desc.clone(), true);
+    if watchdog(move || {
+        drop(pb);
+        drop(mp);
+    })
+    .is_none()
+    {
+        s.fail("deadlock", "drop of the bar after the flaky-terminal story did not return".into(), desc);
+    }
+}
+
+#[derive(Debug, Default)]
+struct GateShared {
+    entered: AtomicBool,
+    open: Mutex<bool>,
+    cv: Condvar,
+    calls: AtomicUsize,
+}
+
+/// a terminal whose first `write_str` parks the caller (the ticker thread) until the gate is opened
+#[derive(Debug, Clone)]
+struct GateTerm(Arc<GateShared>);
+
+impl GateTerm {
+    fn call(&self) -> io::Result<()> {
+        self.0.calls.fetch_add(1, Ordering::SeqCst);
+        Ok(())
+    }
+}
+
+impl TermLike for GateTerm {
+    fn width(&self) -> u16 {
+        40
+    }
+    fn height(&self) -> u16 {
+        10
+    }
+    fn move_cursor_up(&self, _n: usize) -> io::Result<()> {
+        self.call()
+    }
+    fn move_cursor_down(&self, _n: usize) -> io::Result<()> {
+        self.call()
+    }
+    fn move_cursor_right(&self, _n: usize) -> io::Result<()> {
+        self.call()
+    }
+    fn move_cursor_left(&self, _n: usize) -> io::Result<()> {
+        self.call()
+    }
+    fn write_line(&self, _s: &str) -> io::Result<()> {
+        self.call()
+    }
+    fn write_str(&self, _s: &str) -> io::Result<()> {
+        if !self.0.entered.swap(true, Ordering::SeqCst) {
+            let mut open = self.0.open.lock().unwrap();
+            while !*open {
+                open = self.0.cv.wait(open).unwrap();
+            }
+        }
+        self.call()
+    }
+    fn clear_line(&self) -> io::Result<()> {
+        self.call()
+    }
+    fn flush(&self) -> io::Result<()> {
+        self.call()
+    }
+}
+
+/// panics of threads without a name (the ticker thread is spawned with plain `thread::spawn`; every harness
+/// thread is named)
+static FOREIGN_PANICS: Mutex<Vec<String>> = Mutex::new(Vec::new());
+
+fn watch_foreign_panics() {
+    static ONCE: std::sync::Once = std::sync::Once::new();
+    let _ = catch(|| ()); // the library's hook first, ours wraps it
+    ONCE.call_once(|| {
+        let prev = std::panic::take_hook();
+        std::panic::set_hook(Box::new(move |info| {
+            if std::thread::current().name().is_none() {
+                if let Ok(mut v) = FOREIGN_PANICS.lock() {
+                    v.push(info.to_string());
+                }
+            }
+            prev(info);
+        }));
+    });
+}
+
+/// The last handle is dropped while the ticker thread is in the middle of a tick (parked inside the terminal).
+/// drop() must stop and JOIN the ticker: when it returns the thread has ended without a panic and nothing
+/// touches the terminal any more ("ticker holds only a Weak reference", "stops ... when the last handle is dropped").
+fn gate_story(s: &mut Session, interval_ms: u64, multi: bool) {
+    let desc = format!("last_handle_dropped_during_a_tick interval_ms={interval_ms} multi={multi}");
+    watch_foreign_panics();
+    let panics_before = FOREIGN_PANICS.lock().map(|v| v.len()).unwrap_or(0);
+    let shared = Arc::new(GateShared::default());
+    let term = GateTerm(shared.clone());
+    let mp = multi.then(|| MultiProgress::with_draw_target(ProgressDrawTarget::term_like(Box::new(term.clone()))));
+    let pb = match &mp {
+        Some(m) => m.add(ProgressBar::with_draw_target(None, ProgressDrawTarget::hidden())),
+        None => ProgressBar::with_draw_target(None, ProgressDrawTarget::term_like(Box::new(term.clone()))),
+    };
+    pb.set_style(ProgressStyle::with_template("{spinner} {msg}").unwrap());
+    pb.enable_steady_tick(Duration::from_millis(interval_ms));
+    if !wait_until(5000, || shared.entered.load(Ordering::SeqCst)) {
+        s.fail("ticker-does-not-redraw", "the steady tick thread never started to draw".into(), desc);
+        *shared.open.lock().unwrap() = true;
+        shared.cv.notify_all();
+        std::mem::forget(pb);
+        return;
+    }
+    let opener = {
+        let shared = shared.clone();
+        std::thread::Builder::new()
+            .name("c08-gate".into())
+            .spawn(move || {
+                std::thread::sleep(Duration::from_millis(300));
+                *shared.open.lock().unwrap() = true;
+                shared.cv.notify_all();
+            })
+            .unwrap()
+    };
+    // drop the only handle while the tick is in flight (it legitimately waits for the tick to complete)
+    let dropped = watchdog(move || drop(pb));
+    let calls_when_drop_returned = shared.calls.load(Ordering::SeqCst);
+    let _ = opener.join();
+    if dropped.is_none() {
+        s.fail("deadlock", "drop of the last handle during a tick did not return".into(), desc);
+        return;
+    }
+    // a (wrongly) surviving ticker thread gets time to finish its tick and to tear itself down
+    std::thread::sleep(Duration::from_millis(700));
+    let calls_at_end = shared.calls.load(Ordering::SeqCst);
+    let panics: Vec<String> =
+        FOREIGN_PANICS.lock().map(|v| v[panics_before.min(v.len())..].to_vec()).unwrap_or_default();
+    if !panics.is_empty() {
+        s.fail(
+            "ticker-thread-panicked",
+            format!("the steady tick thread did not end cleanly after the last handle was dropped during a tick: {panics:?}"),
+            desc.clone(),
+        );
+    }
+    if calls_at_end != calls_when_drop_returned {
+        s.fail(
+            "ticker-uses-terminal-after-last-drop",
+            format!(
+                "{} terminal call(s) after drop() of the last handle had returned (drop did not wait for the ticker)",
+                calls_at_end - calls_when_drop_returned
+            ),
+            desc.clone(),
+        );
+    }
+    s.count("story:last_drop_during_tick");
+    s.oracle_only(desc, true);
+    drop(mp);
+}
+
 fn scenario_case(s: &mut Session, sc: &Scenario, seed: u64) {
     let desc = format!("scenario {}", sc.text());
     let out = run_scenario(sc);
@@ -908,8 +1177,8 @@ fn main() {
               is_hidden, force_draw, set_draw_target; MultiProgress println/clear/suspend/remove/add/insert/insert_from_back/\
               insert_before/insert_after (anchor = bar 0, never detached)/remove+add/is_hidden) on 1-3 shared bars \
               (hidden / InMemoryTerm / MultiProgress members), with and without initial tickers; each scenario is also replayed on \
-              the lock model built from the generated footprint table; ticker lifecycle cases: event x interval x target; manual \
-              tick cases; non-trivial = at least 3 calls; distinct = distinct scenario text"
+              the lock model built from the generated footprint table; ticker lifecycle cases (oracle only): event x interval x target; a terminal that fails once under a steady tick; the \
+              last handle dropped while the ticker is parked inside a terminal call; manual tick cases; non-trivial = at least 3 calls; distinct = distinct scenario text"
         .into();
     indicatif::verif_clock::set_auto_step_ns(1_000_000);
     // ---- ticker lifecycle first (thread observation is process wide)
@@ -945,6 +1214,23 @@ fn main() {
     }
     for (iv, multi) in [(1u64, false), (5, false), (2, true), (20, true)] {
         redraws(&mut s, iv, multi);
+    }
+    // ---- a terminal that fails once (transient), a terminal that parks the ticker in the middle of a tick
+    for (fail, iv, multi) in [
+        (FailAt::Flush(3), 10u64, false),
+        (FailAt::Flush(1), 5, false),
+        (FailAt::Call(7), 10, false),
+        (FailAt::Flush(2), 10, true),
+        (FailAt::Call(11), 5, true),
+    ] {
+        if expired() < MAX_EXPIRED {
+            flaky_story(&mut s, fail, iv, multi);
+        }
+    }
+    for (iv, multi) in [(10u64, false), (2, true)] {
+        if expired() < MAX_EXPIRED {
+            gate_story(&mut s, iv, multi);
+        }
     }
     // ---- the D9 parties at full speed
     let rounds = if a.thorough || a.extended { 2000 } else { 300 };
